@@ -121,8 +121,10 @@ def rgbToHsl (c : V3 α) : V3 α :=
   let l := sum / 2.0
   if ¬ eqv p.max p.min then
     let d := p.max - p.min
-    -- `(1 − max) + (1 − min)` instead of `2 − sum` (repair: `2 − sum` rounds to 0 next to white)
-    let s := if 1.0 < sum then d / ((1.0 - p.max) + (1.0 - p.min)) else d / sum
+    -- `(1 − max) + (1 − min)` instead of `2 − sum` (repair: `2 − sum` rounds to 0 next to white);
+    -- saturation 0 when the selected divisor is 0 (repair c404fc5: out-of-gamut `max = 1 + δ`, `min = 1 − δ`)
+    let divisor := if 1.0 < sum then (1.0 - p.max) + (1.0 - p.min) else sum
+    let s := if eqv divisor 0.0 then 0.0 else d / divisor
     let h := (p.sep / d + p.coeff) * 60.0
     ⟨h, s, l⟩
   else ⟨0.0, 0.0, l⟩
@@ -137,7 +139,9 @@ def rgbToHslMask (c : V3 α) : V3 α :=
   let sum := max + min
   let lightness := 0.5 * sum
   let chroma := max - min
-  let saturation := if eqv min max then 0.0 else chroma / (if 1.0 < sum then (1.0 - max) + (1.0 - min) else sum)
+  -- saturation 0 also when the selected divisor is 0 (repair c404fc5, as in the scalar branch)
+  let divisor := if 1.0 < sum then (1.0 - max) + (1.0 - min) else sum
+  let saturation := if decide (eqv min max) || decide (eqv divisor 0.0) then 0.0 else chroma / divisor
   let hue := maskHue red green blue max chroma
   ⟨hue * 60.0, saturation, lightness⟩
 
